@@ -380,7 +380,7 @@ func (s *simSession) Reset() {
 
 func (s *simSession) Logout() error {
 	ev := s.b.begin(s.conn, s.id, "Logout", "")
-	if s.cp.ParkLogout > 0 && !connLocked(s.b.simConn(s.conn)) {
+	if s.cp.ParkLogout > 0 && !logoutLocked(s.b.simConn(s.conn)) {
 		ev.park(s.cp.ParkLogout)
 	}
 	if s.cp.LogoutErr {
